@@ -383,6 +383,22 @@ fn c07(quick: bool) -> Vec<Harness> {
         cfg.report = vec!["C07"];
         v.push(ops_harness(&format!("{a:?}+ReadVec-sq1-full"), "C07", cfg, bounds(d(9, 10), d(2, 3), 4)));
     }
+    // The listening descriptor itself is direct: what it accepts must be direct too.
+    for k in [Accept, AcceptNoAddr, MultishotAccept] {
+        for sq in [1u32, 4] {
+            let mut cfg = drop_cfg("C07", vec![k]);
+            cfg.sq = sq;
+            cfg.direct_table = Some(4);
+            cfg.fd_direct = true;
+            cfg.held_letters = true;
+            cfg.faults = false;
+            cfg.errors = true;
+            cfg.costs.outcome = 1;
+            cfg.max_ops = 1;
+            cfg.report = vec!["C07"];
+            v.push(ops_harness(&format!("{k:?}-on-direct-sq{sq}"), "C07", cfg, bounds(d(8, 10), d(2, 3), 4)));
+        }
+    }
     for (a, b) in [(OpenFile, OpenDirect), (MultishotAccept, Socket), (Pipe, ToDirect)] {
         let mut cfg = drop_cfg("C07", vec![a, b]);
         cfg.sq = 2;
@@ -440,6 +456,27 @@ fn c08(quick: bool) -> Vec<Harness> {
                 v.push(ops_harness(&name, "C08", cfg, bounds(d(8, 10), d(2, 3), 4)));
             }
         }
+    }
+    // A buffer that holds data is passed to later reads (five operation kinds); in the
+    // thorough tier its neighbour is owned by another ReadBuf at that time.
+    for (psize, bsize, preset, depth) in [(2u16, 8u32, vec![ReadPool], d(12, 13)), (4, 4, vec![ReadPool], d(12, 13)), (2, 8, vec![ReadPool, RecvPool], 15)] {
+        if quick && preset.len() > 1 {
+            continue;
+        }
+        let mut cfg = drop_cfg("C08", preset.clone());
+        cfg.sq = 4;
+        cfg.pool = (psize, bsize);
+        cfg.held_letters = false;
+        cfg.reread_held = true;
+        cfg.allow_drop = false;
+        cfg.faults = false;
+        cfg.errors = false;
+        cfg.shorts = true;
+        cfg.costs.outcome = 1;
+        cfg.allow_cancel_lose = false;
+        cfg.allow_fresh = false;
+        cfg.report = vec!["C08"];
+        v.push(ops_harness(&format!("pool{psize}x{bsize}-reread{}", preset.len()), "C08", cfg, bounds(depth, d(2, 3), 4)));
     }
     v
 }
